@@ -166,6 +166,8 @@ def devViewOfJson (j : Json) : Option Spec.C13.DevView := do
          checkpoint := ← bytes "checkpoint", minDifficulty := ← nat "min_difficulty",
          network := ← nat "network", hbSig := ← bytes "hb_sig", hbMsg := ← bytes "hb_msg",
          hbHash := ← bytes "hb_hash", hbPub := ← bytes "hb_pub",
+         uiHbSig := ← bytes "ui_hb_sig", uiHbMsg := ← bytes "ui_hb_msg",
+         uiHbHash := ← bytes "ui_hb_hash", uiHbPub := ← bytes "ui_hb_pub",
          modeBefore := ← nat "mode_before", modeAfter := ← nat "mode_after" }
 
 /-- C09: bring-up -/
